@@ -215,3 +215,25 @@ package convert
 //@   props C11 C12 C15
 //@   modifies nothing
 //@   ensures result != nil
+
+// ---------------------------------------------------------------- C11: time-valued fields
+// time.Time values are modelled by their Unix nanosecond count (unixnano). Decoding a base time
+// yields the time whose count is the wire value - for every wire value, the epoch (0) included -
+// and encoding puts exactly that count back on the wire; the open responses decode their server
+// time the same way.
+//@ func ToBaseTime
+//@   props C11
+//@   requires v != nil
+//@   ensures result != nil && unixnano(result.BaseTime) == v.BaseTime && result.SessionID == v.SessionId && result.Name == v.Name && imp(v.ElapsedTime < 9223372036854775808, result.ElapsedTime == v.ElapsedTime)
+//@ func ToBaseTimeProto
+//@   props C11
+//@   requires v != nil
+//@   ensures result != nil && result.BaseTime == unixnano(v.BaseTime) && result.SessionId == v.SessionID && result.Name == v.Name && result.Priority == v.Priority
+
+//@ lemma baseTimeWireRoundTrip
+//@   props C11
+//@   forall p *autogen.BaseTime
+//@   requires p != nil
+//@   let m = ToBaseTime(p)
+//@   let p2 = ToBaseTimeProto(m)
+//@   ensures p2 != nil && p2.BaseTime == p.BaseTime && p2.SessionId == p.SessionId && p2.Name == p.Name
